@@ -465,6 +465,14 @@ class Ctx:
         # pc /\ not(g with those equalities replaced by length equalities) refutes g - without building long sequences
         r = None
         neg = z3.Not(g)
+        if getattr(self, 'cvc5_first', None):
+            import re as _re
+            if any(_re.search(rx, label) for rx in self.cvc5_first):
+                # clauses known to be hard for z3's sequence solver and quick for cvc5 (declared by the contract): ask cvc5 first
+                if self._cvc5_fallback(g) == 'unsat':
+                    self.results.append(ObligationResult(label, 'unsat', None, time.time() - t0, 'cvc5', list(self.trace), detail, len(g.sexpr())))
+                    self.assume(g)
+                    return
         glen = len_weaken(goal_raw)
         if glen is not None:
             r0 = self._check([z3.Not(glen)], RLIMIT)
@@ -486,6 +494,8 @@ class Ctx:
                 detail = (detail + ' [counter-model of the relevant part of the path condition]').strip()
         dt = time.time() - t0
         size = len(g.sexpr())
+        if dt > 5.0 and os.environ.get('PYVC_SLOW'):
+            print('SLOW-OBLIGATION %.1fs %s %s path=%s' % (dt, r, label, self.trace), flush=True)
         if r == z3.unsat:
             backend = 'z3'
             budget = int(os.environ.get('PYVC_CROSS', '0') or 0)
